@@ -329,6 +329,7 @@ pub fn def() -> PropDef {
         needs_pairing: false,
         subs: vec![
             Box::new(crate::engine::EnumSub { name: "long-history", rule: super::longhist::RULE, run: run_long_history, replay: super::longhist::replay, exhaustive: false }),
+            Box::new(crate::engine::EnumSub { name: "two-input-bursts", rule: super::longhist::BURST_RULE, run: run_two_input_bursts, replay: super::longhist::replay_burst, exhaustive: false }),
             Box::new(Sub { name: "fq", rule: "Fq sqrt / legendre / sgn0 / order / negate_if", quick: 120_000, thorough: 400_000, strategy: || boxed(prime_case_strategy(6)), check: check_fq_prime }),
             Box::new(Sub { name: "fr", rule: "Fr sqrt (Tonelli-Shanks) / legendre / order", quick: 120_000, thorough: 400_000, strategy: || boxed(prime_case_strategy(4)), check: check_fr_prime }),
             Box::new(Sub { name: "fq2", rule: "Fq2 sqrt / legendre (of the norm) / sgn0 / lexicographic order / negate_if", quick: 120_000, thorough: 400_000, strategy: || boxed(fq2_case_strategy()), check: check_fq2 }),
